@@ -152,7 +152,8 @@ func (this *upceanReader) decodeRowWithStartRange(
 
 	var resultPointCallback gozxing.ResultPointCallback
 	if hint, ok := hints[gozxing.DecodeHintType_NEED_RESULT_POINT_CALLBACK]; ok {
-		resultPointCallback = hint.(gozxing.ResultPointCallback)
+		// a value of any other type is ignored, as the other readers do
+		resultPointCallback, _ = hint.(gozxing.ResultPointCallback)
 	}
 	symbologyIdentifier := 0
 
